@@ -132,3 +132,67 @@ def programs(tier):
                             stats["wrappers"].add((K.short(start), w.op))
     stats["programs"] = len(progs)
     return progs, stats
+
+
+# ---------------------------------------------------------------------------------------------
+# async wrappers (futures combinators): X >>> inner <<< == .x(|v| v inner) on futures and streams
+# ---------------------------------------------------------------------------------------------
+ASYNC_PRE = """use futures::future::ready;
+use futures::stream::iter;
+fn okf<T>(v: T) -> futures::future::Ready<Result<T, i32>> { ready(Ok(v)) }
+fn recf(e: i32) -> futures::future::Ready<Result<i32, i32>> { ready(if e % 2 == 0 { Ok(e + 1) } else { Err(e + 2) }) }
+"""
+
+
+def async_wrapper_programs(tier):
+    progs = []
+    INT, OPT, RES = K.INT, K.Opt(K.INT), K.Res(K.INT)
+
+    def inner_chains(kind, n):
+        """plain inner chains (no `??`: inside an async macro it means .inspect) of length <= n from a value kind"""
+        out = [([], kind, [])]
+        if n == 0:
+            return out
+        for row in K.sync_rows(kind, "0.i.%d" % n):
+            if row.pinned or row.op == "??" or row.out[0] == "Iter":
+                continue
+            item = Op(row.op, [O(t) for t in row.operands])
+            for rest, fk, labels in inner_chains(row.out, n - 1):
+                out.append(([item] + rest, fk, [row.label] + labels))
+        return out
+
+    n_in = 1 if tier == "quick" else 2
+    cases = []
+    # (start text, rows, wrapper op, inner start kind, accept(inner end) -> (extra inner items, final awaited kind or None), finishing items after close)
+    for vk, init, rows in ((INT, "ready(int(0))", [[2], [3]]), (OPT, "ready(opt(0))", [[2], [0]]), (RES, "ready(res(0))", [[2], [-7]])):
+        cases.append((init, rows, "|>", vk, lambda e: ([], e) if K.nameable(e) else None, []))
+        cases.append((init, rows, "??", K.Ref(vk), lambda e: ([], None) if e == K.UNIT else None, []))
+    cases.append(("ready(res(0))", [[2], [3], [-7]], "=>", INT, lambda e: ([Op("->", [O("okf")])], K.Res(e)) if K.nameable(e) else None, []))
+    cases.append(("ready(res(0))", [[2], [-7], [-8]], "<=", INT, lambda e: ([Op("->", [O("recf")])], RES) if e == INT else None, []))
+    cases.append(("ready(res(0))", [[2], [-7]], "!>", INT, lambda e: ([], RES) if e == INT else None, []))
+    fin = [Op("=>[]", [O("Vec<_>")])]
+    cases.append(("iter(vc(0))", [[0], [2], [3]], "|>", INT, lambda e: ([], K.Vec(e)) if K.nameable(e) else None, fin))
+    cases.append(("iter(vc(0))", [[0], [2], [3]], "?>", K.Ref(INT), lambda e: ([Op("->", [O("ready")])], K.Vec(INT)) if e == K.BOOL else None, fin))
+    cases.append(("iter(vc(0))", [[0], [2], [3]], "?|>", INT, lambda e: ([Op("->", [O("ready")])], K.Vec(e[1])) if e[0] == "Opt" and K.nameable(e) else None, fin))
+    for ci, (init, rows, wop, istart, accept, finishing) in enumerate(cases):
+        for inner, ik, ilabels in inner_chains(istart, n_in):
+            acc = accept(ik)
+            if acc is None:
+                continue
+            extra, fk = acc
+            for lname, items in (("close", [Wrap(wop, inner + extra, close=True)] + finishing), ("open", [Wrap(wop, inner + extra, close=False)]) if not finishing else ("~fin", [Wrap(wop, inner + extra, close=True)] + finishing)):
+                for mac in ("join_async", "try_join_async"):
+                    is_try = mac.startswith("try")
+                    if is_try and not (fk is not None and fk[0] == "Res" or (fk is None and "res(" in init)):
+                        continue
+                    b1 = Branch(O("ready(Ok::<i32, i32>(lg(\"1.0.i\", 5)))" if is_try else "ready(lg(\"1.0.i\", 5))"), [])
+                    p = Program(mac, [Branch(O(init), items), b1], flavour="Res" if is_try else None)
+                    d = dsl.program_dsl(p)
+                    r = dsl.program_ref(p, anyof=is_try)
+                    fmt = '\nformat!("{:?}", x)'
+                    rb = "futures::executor::block_on(%s)" % r if is_try else "let x = futures::executor::block_on(%s);%s" % (r, fmt)
+                    mb = "let x = futures::executor::block_on(%s);%s" % (d, fmt)
+                    pid = "aw/%s/%d/%s/%s" % (mac, ci, "-".join(ilabels) or "id", lname)
+                    rows2 = [r0 + [5] for r0 in rows]
+                    progs.append(Prog(pid, rb, mb, rows2, "TryAsync" if is_try else "ProjSteps", meta={"macro": mac, "dsl": d, "ref": r}))
+    return progs
